@@ -182,11 +182,12 @@ def run(ctx):
               'destinations x names that hit and miss; non-trivial = at least two rules match / a rule maps the name')
   ctx.value_oracles.append('relay-rule regexes restricted to a case-insensitive literal grammar decided by Rules!PatMatches')
   ctx.assumptions += ['the hash destinations of a key are taken from the real ConsistentHashingRouter (covered by C05/C06)']
-  cfg = tlc.cfg_text(spec='Spec', constants=dict(Mode='"model"', MaxRules=ctx.pick(3, 4), NDest=ctx.pick(2, 3)), invariants=['ClosedForm', 'OnlyConfigured'])
-  res = tlc.check_ok(tlc.run('Rules', cfg, ctx.scratch, timeout=3000), 'Rules model')
-  ctx.add_tlc('Rules', res)
-  if res.violated:
-    raise Machinery('Rules.tla violates %s: %s' % (res.violated, res.cex))
+  for mr, nd in ([(3, 2)] if ctx.quick else [(3, 3), (4, 2)]):      # |RuleSet|^MaxRules tables (TLC caps a set at 10^6 elements)
+    cfg = tlc.cfg_text(spec='Spec', constants=dict(Mode='"model"', MaxRules=mr, NDest=nd), invariants=['ClosedForm', 'OnlyConfigured'])
+    res = tlc.check_ok(tlc.run('Rules', cfg, ctx.scratch, timeout=3000), 'Rules model')
+    ctx.add_tlc('Rules[%d rules, %d destinations]' % (mr, nd), res)
+    if res.violated:
+      raise Machinery('Rules.tla violates %s: %s' % (res.violated, res.cex))
   settings = env.bootstrap(ctx.scratch)
   settings['CACHE_METRIC_NAMES_MAX'] = 0
   settings['CACHE_METRIC_NAMES_TTL'] = 0
